@@ -356,7 +356,9 @@ Proof.
   - destruct (s_fin s1); [apply inv_add_err; exact Hs'|apply inv_on_work; auto]. intros x Hx. apply u_del_wfp. exact Hx.
   - destruct (s_fin s1); [apply inv_add_err; exact Hs'|apply inv_on_work; auto].
     intros x Hx. unfold w_remove_all. apply w_node_wfp; auto. apply kp_remove_all.
-  - destruct (s_fin s1); [apply inv_add_err; exact Hs'|apply inv_commit; exact Hs'].
+  - destruct (s_fin s1); [apply inv_add_err; exact Hs'|].
+    destruct (s_work s1); [|exact Hs'].
+    destruct (if batch_delete_checks_serial then soa_serial_matches d n else true); [apply inv_commit|apply inv_add_err]; exact Hs'.
   - destruct (s_fin s1); [apply inv_add_err; exact Hs'|apply inv_on_work; auto].
     intros x Hx. unfold u_soa. apply w_update_rrset_wfp. exact Hx.
   - destruct (s_fin s1); [apply inv_add_err; exact Hs'|].
